@@ -424,4 +424,71 @@ theorem badUrlRemnants_fuel (q : Quirks) (f : Nat) (s : Str) (h : s.length ≤ f
     · have : f + 1 = s.length := by omega
       rw [this]
 
+theorem consumeDelim_not_eof' (pos : Nat) (inp : Str) (h : inp ≠ []) : consumeDelim pos inp ≠ .eof := by
+  fun_cases consumeDelim pos inp <;> simp_all
+
+theorem consumeDelim_not_eof (pos : Nat) (c : Char) (cs : Str) : consumeDelim pos (c :: cs) ≠ .eof :=
+  consumeDelim_not_eof' pos (c :: cs) (by simp)
+
+theorem consumeIdentLike_not_eof (q : Quirks) (pos : Nat) (inp : Str) : consumeIdentLike q pos inp ≠ .eof := by
+  unfold consumeIdentLike
+  dsimp only
+  split
+  · split <;> simp
+  · simp
+
+theorem consumeNumeric_not_eof (pos : Nat) (repr : Str) (i : Bool) (rest : Str) :
+    consumeNumeric pos repr i rest ≠ .eof := by
+  unfold consumeNumeric
+  split
+  · simp
+  · split <;> simp
+
+theorem stepPunct_not_eof (q : Quirks) (pos : Nat) (c : Char) (cs : Str) : stepPunct q pos c cs ≠ .eof := by
+  unfold stepPunct
+  split
+  · split <;> simp
+  split
+  · split
+    · split <;> simp
+    · simp
+  split
+  · simp
+  split
+  · simp
+  split
+  · simp
+  split
+  · simp
+  split
+  · dsimp only
+    split <;> simp
+  split
+  · split
+    · split <;> simp
+    · simp
+  · exact consumeDelim_not_eof _ _ _
+
+/-- only the empty input yields EOF -/
+theorem step_eof (q : Quirks) (total : Nat) (inp : Str) (h : (step q total inp).rest? = none) : inp = [] := by
+  cases inp with
+  | nil => rfl
+  | cons c cs =>
+    exfalso
+    have key : step q total (c :: cs) ≠ .eof := by
+      unfold step
+      dsimp only
+      split
+      · simp
+      split
+      · simp
+      split
+      · simp
+      split
+      · exact consumeIdentLike_not_eof _ _ _
+      split
+      · exact consumeNumeric_not_eof _ _ _ _
+      · exact stepPunct_not_eof _ _ _ _
+    cases hs : step q total (c :: cs) <;> simp_all [Step.rest?]
+
 end WR.C06
